@@ -137,12 +137,12 @@ theorem d14_witness_program :
 /-- **Sparse initializers are refused** under every option tuple, whatever else the graph contains. -/
 theorem export_refuses_sparse (o : Opts) (d : Nat) (m : ModelP) (h : m.graph.nSparse > 0) :
     ∃ e, exportModel o d m = .error e :=
-  translateGraph_error_of_body o d m (fun rec st _ => graphBody_error_of_sparse o rec m.graph st h)
+  translateGraph_error_of_body o d m (fun _ rec st _ => graphBody_error_of_sparse o rec m.graph st h)
 
 /-- **`Scan` is refused**: a main graph with a `Scan` node anywhere among its nodes is never exported. -/
 theorem export_refuses_scan (o : Opts) (d : Nat) (m : ModelP) (n : Node)
     (hmem : n ∈ m.graph.nodes) (hop : n.op = "Scan") : ∃ e, exportModel o d m = .error e :=
-  translateGraph_error_of_body o d m (fun rec st hrec =>
+  translateGraph_error_of_body o d m (fun _ rec st hrec =>
     graphBody_error_of_node o rec m.graph st n
       (fun st' => by rw [hrec]; exact translateNode_scan o m.opsets d _ n st' hop) hmem)
 
@@ -151,7 +151,7 @@ theorem export_refuses_graph_attr (o : Opts) (d : Nat) (m : ModelP) (n : Node)
     (hmem : n ∈ m.graph.nodes)
     (h1 : n.op ≠ "Constant") (h2 : n.op ≠ "If") (h3 : n.op ≠ "Loop") (h4 : n.op ≠ "Scan")
     (hg : n.attrs.any (·.2.isGraph) = true) : ∃ e, exportModel o d m = .error e :=
-  translateGraph_error_of_body o d m (fun rec st hrec =>
+  translateGraph_error_of_body o d m (fun _ rec st hrec =>
     graphBody_error_of_node o rec m.graph st n
       (fun st' => by
         rw [hrec]
@@ -168,7 +168,7 @@ theorem export_refuses_attr_kind (o : Opts) (d : Nat) (m : ModelP) (n : Node) (k
     (h1 : n.op ≠ "Constant") (h2 : n.op ≠ "If") (h3 : n.op ≠ "Loop") (h4 : n.op ≠ "Scan")
     (hk : (k, Attr.unsupported) ∈ n.attrs) (hs : o.useOps = false ∨ opsTable.lookup n.op = none) :
     ∃ e, exportModel o d m = .error e :=
-  translateGraph_error_of_body o d m (fun rec st hrec =>
+  translateGraph_error_of_body o d m (fun _ rec st hrec =>
     graphBody_error_of_node o rec m.graph st n
       (fun st' => by
         rw [hrec]
@@ -233,11 +233,29 @@ def forBody : Graph :=
   .mk ["i", "c_in", "s_in"] ["c_out", "s_out"] [] 0
     [.mk "Add" "" "" ["s_in", "x"] ["s_out"] [], .mk "Identity" "" "" ["c_in"] ["c_out"] []]
 
-/-- C13-FOR-MAIN: a `for` loop (trip count, condition unused) in a *main graph* raises `IndexError`
-(`self._name_remappings[-1]` on the empty stack) under every option tuple … -/
-theorem for_loop_in_main_graph_witness : ∀ o : Opts,
-    (match exportModel o 3 ⟨"g", none, [("", 18)],
-        .mk ["x", "n"] ["y"] [] 0 [.mk "Loop" "" "" ["n", "", "x"] ["y"] [("body", .graph forBody)]]⟩ with
+/-- C13-FOR-MAIN (fixed by e68372f): a `for` loop (trip count, condition passed through) in a *main graph* is
+exported — the main graph now has its own remapping scope — and the suppressed `c_out = c_in` copy and the
+state hand-over are printed as for a function body. -/
+theorem for_loop_in_main_graph_fixed :
+    (exportModel ⟨false, false, false, false⟩ 3 ⟨"g", none, [("", 18)],
+        .mk ["x", "n"] ["y"] [] 0 [.mk "Loop" "" "" ["n", "", "x"] ["y"] [("body", .graph forBody)]]⟩).toOption
+      = some ["sig g(x,n|)", "L1 assign s_in = x", "L1 for i n", "L2 call s_out = opset18.Add(s_in,x|)",
+              "L2 assign s_in = s_out", "L1 assign y = s_in", "L1 return y"] := by
+  decide +kernel
+
+/-- … under every option tuple the export succeeds (no exception). -/
+theorem for_loop_in_main_graph_fixed_all_options : ∀ o : Opts,
+    (exportModel o 3 ⟨"g", none, [("", 18)],
+        .mk ["x", "n"] ["y"] [] 0 [.mk "Loop" "" "" ["n", "", "x"] ["y"] [("body", .graph forBody)]]⟩).toOption.isSome
+      = true := by
+  intro ⟨r, u, i, s⟩
+  cases r <;> cases u <;> cases i <;> cases s <;> decide +kernel
+
+/-- Pre-fix behaviour, kept as the refuted statement: `_translate_loop` run without any remapping scope (what
+`_translate_graph` did before e68372f) raises `IndexError`, for every option tuple. -/
+theorem for_loop_without_scope_prefix_refuted : ∀ o : Opts,
+    (match translateLoop o (translateNode o [("", 18)] 2 2) 2
+        (.mk "Loop" "" "" ["n", "", "x"] ["y"] [("body", .graph forBody)]) 1 {} with
      | .error e => e.pyClass
      | .ok _ => "") = "IndexError" := by
   intro ⟨r, u, i, s⟩
@@ -252,12 +270,19 @@ theorem for_loop_in_function_ok :
               "L2 assign s_in = s_out", "L1 assign y = s_in", "L1 return y"] := by
   decide +kernel
 
-/-- C13-SKIP-INDENT: `skip_initializers=True` without a large initializer prints the function one level deep
-(`L2`) but without the enclosing `make_model` (`wrap …` line absent): not valid Python. -/
-theorem skip_initializers_indent_witness :
+/-- C13-SKIP-INDENT (fixed by 4af3eb7): `skip_initializers=True` without a large initializer prints the function
+at depth 1, without `make_model` — exactly the text of `skip_initializers=False`. -/
+theorem skip_initializers_nothing_skipped_fixed :
     (exportModel ⟨false, false, false, true⟩ 2
-      ⟨"g", none, [("", 18)], .mk ["x"] ["y"] [] 0 [.mk "Relu" "" "" ["x"] ["y"] []]⟩).toOption
-      = some ["sig g(x|)", "L2 call y = opset18.Relu(x|)", "L2 return y"] := by
+        ⟨"g", none, [("", 18)], .mk ["x"] ["y"] [] 0 [.mk "Relu" "" "" ["x"] ["y"] []]⟩).toOption
+      = some ["sig g(x|)", "L1 call y = opset18.Relu(x|)", "L1 return y"] := by
+  decide +kernel
+
+/-- … and with a large initializer the function stays one level deep inside `make_model(w)`. -/
+theorem skip_initializers_wrapped :
+    (exportModel ⟨false, false, false, true⟩ 2
+        ⟨"g", none, [("", 18)], .mk ["x"] ["y"] [("w", 6, 1, [6], "#big")] 0 [.mk "Add" "" "" ["x", "w"] ["y"] []]⟩).toOption
+      = some ["wrap w", "sig g(x|)", "L2 call y = opset18.Add(x,w|)", "L2 return y"] := by
   decide +kernel
 
 /-- C13-INLINE-DANGLING: an inlined constant that is a graph output is dropped and then returned by name. -/
